@@ -421,6 +421,10 @@ ARGS_LOOP:
 						if _, is := isOption(value, mode, false); is {
 							break
 						}
+						// The terminator is never taken as an optional or additional value.
+						if value == "--" {
+							break
+						}
 
 						// Validate that value matches expected format
 						switch cOpt.OptType {
